@@ -5,6 +5,7 @@ mod common;
 mod rng;
 mod c11;
 mod c15;
+mod c10;
 
 use std::io::{BufWriter, Write};
 
@@ -25,6 +26,7 @@ fn main() {
             match prop {
                 "C11" => c11::gen(tier, seed, &mut out),
                 "C15" => c15::gen(tier, seed, &mut out),
+                "C10" => c10::gen(tier, seed, &mut out),
                 _ => {
                     eprintln!("unknown property {}", prop);
                     std::process::exit(2);
@@ -44,6 +46,7 @@ fn main() {
                 writeln!(out, "{} => {}", input, obs).unwrap();
             }
         }
+        "c10child" => c10::child(&args[2], &args[3]),
         _ => {
             eprintln!("unknown command");
             std::process::exit(2);
@@ -60,6 +63,7 @@ fn replay_one(toks: &[&str]) -> String {
             c11::observe(fmt, &cs)
         }
         "C15" => c15::observe(toks),
+        "C10" => c10::observe(toks),
         other => format!("unknown-model {}", other),
     }
 }
